@@ -18,7 +18,7 @@ use domain::net::client::request::{ComposeRequest, Error as ReqError, GetRespons
 use domain::net::client::validator;
 use domain::rdata::dnssec::{RtypeBitmap, Timestamp};
 use domain::rdata::nsec3::{Nsec3Salt, OwnerHash};
-use domain::rdata::{AllRecordData, Cname, Dnskey, Ds, Ns, Nsec, Nsec3, Rrsig, Soa, Txt, ZoneRecordData, A};
+use domain::rdata::{AllRecordData, Cname, Dname, Dnskey, Ds, Ns, Nsec, Nsec3, Rrsig, Soa, Txt, ZoneRecordData, A};
 use dv_harness::*;
 use std::collections::{BTreeMap, BTreeSet};
 use std::future::Future;
@@ -1511,45 +1511,97 @@ fn main() {
         let sec_names: Vec<N> = ["p.zone.sec.", "q.zone.sec.", "r.zone.sec.", "P.zone.sec."].iter().map(|s| nm(s)).collect();
         let ins_names: Vec<N> = ["p.ins.", "q.ins."].iter().map(|s| nm(s)).collect();
         let all_names: Vec<N> = sec_names.iter().chain(ins_names.iter()).cloned().collect();
-        for _ in 0..(1500 * scale) {
-            let n = 1 + r.below(4) as usize;
+        let dn_owners: Vec<N> = ["d.zone.sec.", "p.zone.sec."].iter().map(|s| nm(s)).collect();
+        let dn_targets: Vec<N> = ["e.zone.sec.", "q.zone.sec.", "e.ins."].iter().map(|s| nm(s)).collect();
+        let prefixes: Vec<Vec<Vec<u8>>> = vec![vec![b"x".to_vec()], vec![b"g".to_vec()], vec![b"y".to_vec(), b"x".to_vec()], vec![b"X".to_vec()]];
+        let cat = |pre: &Vec<Vec<u8>>, n: &N| { let mut l = pre.clone(); l.extend(labels_of(n)); name_from_labels(&l).unwrap() };
+        // (rrs, is secure zone) -> (RRset, state word, signed)
+        let finish = |r: &mut Rng, rrs: Vec<Rec>, unsigned: bool| -> (RRset, &'static str, bool) {
+            let secure_zone = is_suffix(&nm("zone.sec."), rrs[0].owner());
+            if !secure_zone { return (RRset { rrs, sigs: vec![] }, "Insecure", false); }
+            if unsigned { return (RRset { rrs, sigs: vec![] }, "Bogus", false); }
+            if r.chance(1, 14) {
+                let other = sign(kz, &[rec(rrs[0].owner(), 300, a([9, 9, 9, 9]))]);
+                let fixed = match other.data() { ZD::Rrsig(g) => Record::new(other.owner().clone(), Class::IN, other.ttl(), ZD::Rrsig(Rrsig::<Bytes, N>::new(rrs[0].rtype(), g.algorithm(), g.labels(), g.original_ttl(), g.expiration(), g.inception(), g.key_tag(), g.signer_name().clone(), g.signature().clone()).unwrap())), _ => other.clone() };
+                return (RRset { rrs, sigs: vec![fixed] }, "Bogus", true);
+            }
+            let sg = sign(kz, &rrs);
+            (RRset { rrs, sigs: vec![sg] }, "Secure", true)
+        };
+        for _ in 0..(1800 * scale) {
             let mut sets: Vec<RRset> = vec![];
             let mut words: Vec<String> = vec![];
-            for _ in 0..n {
-                let secure_zone = r.chance(3, 4);
-                let owner = if secure_zone { r.pick(&sec_names).clone() } else { r.pick(&ins_names).clone() };
-                let kind = r.below(10);
-                let (rrs, cname): (Vec<Rec>, Option<N>) = if kind < 4 {
-                    let t = r.pick(&all_names).clone();
-                    (vec![rec(&owner, 300, ZD::Cname(Cname::new(t.clone())))], Some(t))
-                } else if kind < 8 { (vec![rec(&owner, 300, a([192, 0, 2, r.u8()]))], None) }
-                else if kind < 9 { (vec![rec(&owner, 300, a([192, 0, 2, 1])), rec(&owner, 300, a([192, 0, 2, 2]))], None) }
-                else { (vec![rec(&owner, 300, ZD::Txt(Txt::build_from_slice(b"t").unwrap()))], None) };
-                if sets.iter().any(|s| rfc_eq(s.rrs[0].owner(), &owner) && s.rrs[0].rtype() == rrs[0].rtype()) { continue; }
-                let (sigs, state) = if !secure_zone { (vec![], "Insecure") }
-                    else if r.chance(1, 12) { (vec![sign(kz, &[rec(&owner, 300, a([9, 9, 9, 9]))])], "Bogus") }
-                    else { (vec![sign(kz, &rrs)], "Secure") };
-                // a signature covering another type forms its own (RRSIG-only) group: keep types aligned
-                let sigs: Vec<Rec> = sigs.into_iter().filter(|s| matches!(s.data(), ZD::Rrsig(g) if g.type_covered() == rrs[0].rtype())).collect();
-                let state = if secure_zone && sigs.is_empty() { "Bogus" } else { state };
-                words.push(format!("1 {} {} {} {} {} 0", rrs[0].rtype().to_int(), rrs.len(), nhex(&owner), cname.as_ref().map(|c| nhex(c)).unwrap_or("-".into()), state));
-                sets.push(RRset { rrs, sigs });
+            let mut qn_hint: Option<N> = None;
+            let mut push = |sets: &mut Vec<RRset>, words: &mut Vec<String>, set: RRset, state: &str, signed: bool| {
+                if sets.iter().any(|s| rfc_eq(s.rrs[0].owner(), set.rrs[0].owner()) && s.rrs[0].rtype() == set.rrs[0].rtype()) { return; }
+                let cname = match set.rrs[0].data() { ZD::Cname(c) => nhex(c.cname()), _ => "-".to_string() };
+                let dname = match set.rrs[0].data() { ZD::Dname(d) => nhex(d.dname()), _ => "-".to_string() };
+                words.push(format!("1 {} {} {} {} {} 0 {} {}", set.rrs[0].rtype().to_int(), set.rrs.len(), nhex(set.rrs[0].owner()), cname, state, dname, signed as u8));
+                sets.push(set);
+            };
+            if r.chance(2, 5) {
+                // a DNAME with its (courtesy or forged) CNAME and the data at the candidate targets
+                let dow = r.pick(&dn_owners).clone(); let dtg = r.pick(&dn_targets).clone();
+                let pre = r.pick(&prefixes).clone();
+                let qn = cat(&pre, &dow);
+                let exact = cat(&pre, &dtg);
+                let sibling = { let mut p2 = pre.clone(); p2[0] = if p2[0] == b"g".to_vec() { b"h".to_vec() } else { b"g".to_vec() }; cat(&p2, &dtg) };
+                let ctarget = match r.below(8) { 0 | 1 | 2 => exact.clone(), 3 | 4 => sibling.clone(), 5 => cat(&vec![b"x".to_vec()], &exact), 6 => dtg.clone(), _ => r.pick(&all_names).clone() };
+                let mut parts: Vec<(RRset, &'static str, bool)> = vec![];
+                if r.chance(9, 10) { parts.push(finish(&mut r, vec![rec(&dow, 300, ZD::Dname(Dname::new(dtg.clone())))], false)); }
+                if r.chance(5, 6) { let unsigned = r.chance(3, 4); parts.push(finish(&mut r, vec![rec(&qn, 300, ZD::Cname(Cname::new(ctarget)))], unsigned)); }
+                if r.chance(5, 6) { parts.push(finish(&mut r, vec![rec(&exact, 300, a([192, 0, 2, 71]))], false)); }
+                if r.chance(1, 2) { parts.push(finish(&mut r, vec![rec(&sibling, 300, a([192, 0, 2, 72]))], false)); }
+                for i in (1..parts.len()).rev() { let j = r.below(i as u64 + 1) as usize; parts.swap(i, j); }
+                for (set, state, signed) in parts { push(&mut sets, &mut words, set, state, signed); }
+                qn_hint = Some(if r.chance(1, 8) { flip_case(&mut r, &qn) } else { qn });
+            } else {
+                for _ in 0..(1 + r.below(4)) {
+                    let owner = if r.chance(3, 4) { r.pick(&sec_names).clone() } else { r.pick(&ins_names).clone() };
+                    let kind = r.below(11);
+                    let rrs: Vec<Rec> = if kind < 4 { vec![rec(&owner, 300, ZD::Cname(Cname::new(r.pick(&all_names).clone())))] }
+                        else if kind < 8 { vec![rec(&owner, 300, a([192, 0, 2, r.u8()]))] }
+                        else if kind < 9 { vec![rec(&owner, 300, a([192, 0, 2, 1])), rec(&owner, 300, a([192, 0, 2, 2]))] }
+                        else if kind < 10 { vec![rec(&owner, 300, ZD::Txt(Txt::build_from_slice(b"t").unwrap()))] }
+                        else { vec![rec(&owner, 300, ZD::Dname(Dname::new(r.pick(&dn_targets).clone())))] };
+                    let unsigned = r.chance(1, 12);
+                    let (set, state, signed) = finish(&mut r, rrs, unsigned);
+                    push(&mut sets, &mut words, set, state, signed);
+                }
             }
             if sets.is_empty() { continue; }
-            let qn = if r.chance(1, 6) { flip_case(&mut r, &sets[0].rrs[0].owner().clone()) } else { r.pick(&all_names).clone() };
-            let qt = *r.pick(&[Rtype::A, Rtype::A, Rtype::CNAME, Rtype::TXT]);
+            let qn = match qn_hint { Some(q) => q, None => if r.chance(1, 6) { flip_case(&mut r, &sets[0].rrs[0].owner().clone()) } else if r.chance(1, 6) { cat(r.pick(&prefixes), r.pick(&sec_names)) } else { r.pick(&all_names).clone() } };
+            let qt = *r.pick(&[Rtype::A, Rtype::A, Rtype::A, Rtype::CNAME, Rtype::TXT]);
             idx += 1; if !out.wants(idx) { continue; }
             let c = format!("answer {} {} 11 {}", nhex(&qn), qt.to_int(), words.join(" "));
             out.begin(&c);
-            let resp = Resp { rcode: Rcode::NOERROR, answer: sets, authority: vec![] };
+            let resp = Resp { rcode: Rcode::NOERROR, answer: sets.clone(), authority: vec![] };
             let mut m = build_msg(4, &qn, qt, &resp);
             match catch_mut(|| rt.block_on(async { vc.validate_msg(&mut m).await })) {
                 Err(p) => { out.case(&c, "Panic", true, "positive_reply"); out.check(false, "panic_validator", &c, &p); }
                 Ok(Err(e)) => out.case(&c, &format!("Error {}", e), true, "positive_reply"),
                 Ok(Ok((s, _))) => {
                     out.case(&c, st(s), s == ValidationState::Secure, "positive_reply");
-                    let any_unauth = words.iter().any(|x| !x.ends_with("Secure 0"));
-                    out.check(!(s == ValidationState::Secure && any_unauth), "secure_with_unauthenticated_rrset", &c, "an RRset of the answer section has no valid chain, reply reported secure");
+                    if s == ValidationState::Secure {
+                        // every RRset of a secure answer has a valid chain - except an unsigned CNAME that is exactly what a DNAME of the
+                        // answer synthesizes: the labels in front of the DNAME owner, then the DNAME target (RFC 6672 5.3.1)
+                        for (i, set) in sets.iter().enumerate() {
+                            let wv: Vec<&str> = words[i].split(' ').collect();
+                            if wv[5] == "Secure" { continue; }
+                            let exact_synthesis = match set.rrs[0].data() {
+                                ZD::Cname(cn) if set.rrs.len() == 1 && set.sigs.is_empty() => sets.iter().any(|d| match d.rrs[0].data() {
+                                    ZD::Dname(dn) => { let co = labels_of(set.rrs[0].owner()); let dol = labels_of(d.rrs[0].owner());
+                                        co.len() > dol.len() && is_suffix(d.rrs[0].owner(), set.rrs[0].owner()) && {
+                                            let mut want: Vec<Vec<u8>> = co[..co.len() - dol.len()].to_vec(); want.extend(labels_of(dn.dname()));
+                                            name_from_labels(&want).map_or(false, |wn| rfc_eq(&wn, cn.cname())) } }
+                                    _ => false }),
+                                _ => false };
+                            let has_dname = sets.iter().any(|d| matches!(d.rrs[0].data(), ZD::Dname(_)));
+                            let is_cname = matches!(set.rrs[0].data(), ZD::Cname(_));
+                            out.check(exact_synthesis, if is_cname && has_dname { "secure_with_forged_dname_cname" } else { "secure_with_unauthenticated_rrset" }, &c,
+                                &format!("{} {} of the answer section has no valid chain (and is not the exact synthesis of a DNAME), reply reported secure", set.rrs[0].owner(), set.rrs[0].rtype()));
+                        }
+                    }
                 }
             }
         }
